@@ -132,6 +132,30 @@ def canon(e: ast.expr) -> str:
             if sset is not None:
                 kind_notin = want_neq
                 return f"{'notin' if kind_notin != neg else 'in'}({subj};{sset})"
+    # set(X) - {a, b}   (truthy)   ≡   some element of X is not in {a, b};   set(X) <= {a, b}  ≡  all elements are
+    def _setdiff(x):
+        if isinstance(x, ast.BinOp) and isinstance(x.op, ast.Sub) and isinstance(x.left, ast.Call) and norm(x.left.func) in ("set", "frozenset") \
+                and len(x.left.args) == 1:
+            sset = _const_set(x.right) if isinstance(x.right, (ast.Set, ast.Tuple, ast.List)) else None
+            if sset is None and isinstance(x.right, ast.Call) and norm(x.right.func) in ("set", "frozenset") and len(x.right.args) == 1:
+                sset = _const_set(x.right.args[0])
+            if sset is not None:
+                return norm(x.left.args[0]), sset
+        if isinstance(x, ast.Call) and isinstance(x.func, ast.Attribute) and x.func.attr == "difference" and len(x.args) == 1 \
+                and isinstance(x.func.value, ast.Call) and norm(x.func.value.func) in ("set", "frozenset") and len(x.func.value.args) == 1:
+            sset = _const_set(x.args[0])
+            if sset is not None:
+                return norm(x.func.value.args[0]), sset
+        return None
+    sd = _setdiff(e)
+    if sd is not None:
+        return out(f"exists_notin({sd[0]};{sd[1]})", f"all_in({sd[0]};{sd[1]})")
+    if isinstance(e, ast.Compare) and len(e.ops) == 1 and isinstance(e.ops[0], ast.LtE) and isinstance(e.left, ast.Call) \
+            and norm(e.left.func) in ("set", "frozenset") and len(e.left.args) == 1:
+        sset = _const_set(e.comparators[0]) if isinstance(e.comparators[0], (ast.Set, ast.Tuple, ast.List)) else None
+        if sset is not None:
+            x = norm(e.left.args[0])
+            return out(f"all_in({x};{sset})", f"exists_notin({x};{sset})")
     q = _membership_quantifier(e)
     if q is not None:
         quant, x, s, notin = q
